@@ -174,6 +174,16 @@ class KernExec(StrExec):
                     raise PyUnsupported(f"{base.kind}.{f.attr}")
                 return stub(self, [base] + args, kw, g)
             if isinstance(base, str):
+                cont = [a for a in args if isinstance(a, PyObj) and a.kind == "content"]
+                if cont and f.attr in ("startswith", "endswith", "__contains__", "find", "count"):
+                    # a predicate relating this run's text to a file's content that is not equality: the most
+                    # general answer - arbitrary, except that identical contents satisfy it
+                    self.npred = getattr(self, "npred", 0) + 1
+                    p = z3.Bool(f"pred_{f.attr}_{self.npred}")
+                    self.assumptions.append(z3.Implies(cont[0].attrs["same"], p))
+                    return p
+                if cont:
+                    raise PyUnsupported("str." + f.attr + " on file content")
                 return getattr(base, f.attr)(*args)
             if isinstance(base, Choice) or base is None:
                 raise PyUnsupported("method on optional value")
@@ -347,6 +357,8 @@ def replay(naming, R, model, fs):
     sizes = {}
     log = {"writes": [], "opens": [], "renames": [], "exc": None, "read_same": []}
     reads = [bool(z3.is_true(model.eval(s, model_completion=True))) for g, i, s in fs.reads]
+    prefix_pred = any(str(d).startswith(("pred_startswith", "pred___contains__", "pred_find", "pred_count")) and
+                      z3.is_true(model[d]) for d in model.decls())
     workdir = tempfile.mkdtemp(prefix="c29_")
     qi = {"n": 0, "r": 0}
     real_open, real_os_open = _b.open, os.open
@@ -398,6 +410,8 @@ def replay(naming, R, model, fs):
             qi["r"] += 1
             same = reads[k] if k < len(reads) else True
             log["read_same"].append(same)
+            if not same and prefix_pred:
+                return ""        # a file another run has created but not yet written: a prefix of every text
             return "CODE" if same else "OTHER"
 
     def py_open(path, mode="r", *a, **k):
